@@ -350,7 +350,7 @@ func (vc *FuncVC) script(only *Obligation, withModel bool) string {
 		if only == ob {
 			break
 		}
-		if ob.Expect == "unsat" {
+		if ob.Expect == "unsat" && ob.Kind != "nocontract" {
 			fmt.Fprintf(&b, "(assert %s)\n", imp(ob.pc, ob.f).S)
 		}
 	}
